@@ -683,6 +683,11 @@ class FT:
                 self.define(m.group(1), t)
                 self.decl[cname(m.group(1)) + '__in'] = t
         self.phis = phis
+        # allocation sites: does the result of operator new get bitcast to a typed pointer?
+        alltext = '\n'.join(s_ for _, ins_ in blocks for s_ in ins_)
+        self.alloc_typed = set()
+        for m_ in re.finditer(r'bitcast i8\* (%[-a-zA-Z$._0-9]+) to (?!i8\*)', alltext):
+            self.alloc_typed.add(m_.group(1))
         # the entry block label in preds: clang names it %N where N = number of params (if unnamed)
         entry_pred = '%' + str(len(f.params))
         body = []
@@ -938,6 +943,15 @@ class FT:
             return ['__CPROVER_assert(%s, "%s");' % (args[0][1], lit)]
         if callee_name == '@__CPROVER_assume':
             return ['__CPROVER_assume(%s);' % args[0][1]]
+        if callee_name in ('@_Znam', '@_Znwm') and dest and dest not in self.alloc_typed:
+            mm = re.fullmatch(r'\(\(uint64_t\)(\d+)ULL\)', args[0][1])
+            if mm and int(mm.group(1)) <= (1 << 20):
+                # raw byte storage (never viewed as a struct): a typed char object per allocation site,
+                # which must execute at most once (asserted)
+                FT.nheap = getattr(FT, 'nheap', 0) + 1
+                k = FT.nheap
+                d = self.define(dest, ret)
+                return ['{ static char heap__%d[%s]; static int heap_used__%d; __CPROVER_assert(!heap_used__%d, "verif: byte allocation site executed more than once"); heap_used__%d = 1; %s = (P)heap__%d; }' % (k, mm.group(1), k, k, k, d, k)]
         if callee_name:
             callee_name = M.aliases.get(callee_name, callee_name)
             USED_FUNCS.setdefault(callee_name, (ret, [a for a, _ in args], fnty))
